@@ -1,0 +1,38 @@
+//go:build verif
+
+package galaxy
+
+import (
+	"encoding/json"
+
+	"github.com/containernetworking/cni/pkg/types"
+	corev1 "k8s.io/api/core/v1"
+	"tkestack.io/galaxy/pkg/api/cniutil"
+	galaxyapi "tkestack.io/galaxy/pkg/api/galaxy"
+)
+
+// VerifParseExtendedCNIArgs exposes parseExtendedCNIArgs (annotation -> common.* raw members).
+func VerifParseExtendedCNIArgs(pod *corev1.Pod) (map[string]json.RawMessage, error) {
+	return parseExtendedCNIArgs(pod)
+}
+
+// VerifNewGalaxyWithConf builds a Galaxy from an in-memory JsonConf exactly as Init does after reading the file
+// (checkNetworkConf), without docker, kube client or port mapping handler.
+func VerifNewGalaxyWithConf(conf JsonConf) (*Galaxy, error) {
+	g := NewGalaxy()
+	g.JsonConf = conf
+	if err := g.checkNetworkConf(); err != nil {
+		return nil, err
+	}
+	return g, nil
+}
+
+// VerifResolveNetworks exposes resolveNetworks (network selection + copy of the common args into every network).
+func (g *Galaxy) VerifResolveNetworks(req *galaxyapi.PodRequest, pod *corev1.Pod) ([]*cniutil.NetworkInfo, error) {
+	return g.resolveNetworks(req, pod)
+}
+
+// VerifCmdAdd exposes cmdAdd (resolveNetworks + cniutil.CmdAdd, i.e. the delegate plugin invocations).
+func (g *Galaxy) VerifCmdAdd(req *galaxyapi.PodRequest, pod *corev1.Pod) (types.Result, error) {
+	return g.cmdAdd(req, pod)
+}
